@@ -1,7 +1,7 @@
 (* C20 — property theorems (statements only; proofs live in Proofs*.v). *)
 From Coq Require Import ZArith QArith Qround Qabs Bool List Sorted Permutation.
 Require Import QV.common.Util QV.common.Ctl QV.C20.Model QV.C20.Spec QV.C20.ProofsNum QV.C20.ProofsWin QV.C20.ProofsShrink.
-Require Import QV.C20.ForLoop QV.C20.Gen_performance QV.C20.GenEq QV.C20.ProofsAvg QV.C20.ProofsMem.
+Require Import QV.C20.ForLoop QV.C20.Gen_performance QV.C20.GenEq QV.C20.ProofsAvg QV.C20.ProofsAvg2 QV.C20.ProofsMem QV.C20.ProofsMem2.
 Import ListNotations.
 Open Scope Q_scope.
 
@@ -106,14 +106,38 @@ Theorem C20_average_variants_equal_refuted :
 Proof. exact (conj avg_variants_refuted eq_refl). Qed.
 Print Assumptions C20_average_variants_equal_refuted.
 
-(* ---- ProgramEntry sampling: full statement, NOT proved; the flat-memory model is compared with the implementation
-        (check_corr) and the implementation with the direct formula spec_sample (check_spec) on every run ---- *)
-Definition C20_sampling_statement : Prop :=
-  forall chans markers rate wfs,
-    outcome_eqb (list_eqb sampled_eqb) (sample_waveforms chans markers rate wfs) (spec_sample chans markers rate wfs) = true.
+(* under the guard (windows sorted by begin and by end) the two-pointer loop is the mean over begin <= t < end, hence
+   equal to the searchsorted variant; closes the statement left open in round 1 (C20_average_variants_equal_statement) *)
+Theorem C20_average_loop_is_mean : forall nch time values ws,
+  Sorted Qle time -> length values = length time -> guard_C20_average_sorted_windows ws = true ->
+  avg_loop nch time values ws = spec_avg nch time values ws.
+Proof. exact avg_loop_is_spec. Qed.
+Print Assumptions C20_average_loop_is_mean.
 
-(* the part of it that is proved: a written segment reads back unchanged, a later write further right leaves it alone *)
-Theorem C20_sampling_partial : forall (A : Type) (row : list A) (pos : nat) (xs : list A),
+Theorem C20_average_variants_equal : forall nch time values ws,
+  Sorted Qle time -> length values = length time -> Forall (fun row => length row = nch) values ->
+  guard_C20_average_sorted_windows ws = true ->
+  avg_eqb (avg_loop nch time values ws) (avg_numpy nch time values ws) = true.
+Proof. exact avg_variants_equal. Qed.
+Print Assumptions C20_average_variants_equal.
+
+(* ---- ProgramEntry sampling: the flat-memory model (compact rows, segment offsets, views read after all writes)
+        returns exactly the direct formula (T(sample wf ch (k/rate)) - offset)/amplitude, markers <> 0 — including the
+        error cases (unknown channel, too few samples, bad duration) ---- *)
+Theorem C20_sampling : forall chans markers rate wfs,
+  sample_waveforms chans markers rate wfs = spec_sample chans markers rate wfs.
+Proof. exact sample_waveforms_is_spec. Qed.
+Print Assumptions C20_sampling.
+
+(* the same as the boolean comparison used by the correspondence check (the round-1 C20_sampling_statement) *)
+Theorem C20_sampling_eqb : forall chans markers rate wfs,
+  outcome_eqb (list_eqb sampled_eqb) (sample_waveforms chans markers rate wfs) (spec_sample chans markers rate wfs) = true.
+Proof. exact sampling_statement. Qed.
+Print Assumptions C20_sampling_eqb.
+
+(* the two memory facts it is assembled from: a written segment reads back unchanged, a later write further right
+   leaves it alone, the row keeps its length *)
+Theorem C20_flat_memory_read_write : forall (A : Type) (row : list A) (pos : nat) (xs : list A),
   (pos + length xs <= length row)%nat ->
   firstn (length xs) (skipn pos (write_at row pos xs)) = xs
   /\ (forall pos2 n2, (pos2 + n2 <= pos)%nat -> firstn n2 (skipn pos2 (write_at row pos xs)) = firstn n2 (skipn pos2 row))
@@ -122,7 +146,7 @@ Proof.
   exact (fun A row pos xs H => conj (read_own_write row pos xs H)
            (conj (fun pos2 n2 H2 => read_left_of_write row pos xs pos2 n2 H2 H) (write_at_length row pos xs H))).
 Qed.
-Print Assumptions C20_sampling_partial.
+Print Assumptions C20_flat_memory_read_write.
 
 (* ---- the loop kernels re-translated from /repo on every run compute the clean models ---- *)
 Theorem C20_translated_shrink_is_model : forall bs ls, length bs = length ls ->
